@@ -1,4 +1,5 @@
 import Proofs.Taint
+import Proofs.TextWriter
 /-!
 # C19 — diagnostics never reveal the content of marked values (expression evaluation)
 
@@ -86,9 +87,9 @@ caller echoes of a result that it unmarks itself is outside this model.
 Not modelled: fragments are *value* content only.  Type descriptions in messages (attribute names of a marked
 object in "Inconsistent conditional result types" and in conversion errors) are not fragments of the model;
 the direct oracle records those leaks (`leak:inconsistent-conditional-result-types-detail`,
-`leak:incorrect-attribute-value-type-detail`).  Rendering by the text diagnostic writer (which prints the
-values of the variables referenced by `Expression` from `EvalContext`) and body decoding are outside the
-evaluator model.
+`leak:incorrect-attribute-value-type-detail`).  Body decoding is outside the evaluator model.  The text
+diagnostic writer, which prints the values of the variables referenced by `Expression` from `EvalContext`,
+has its own model and theorems: last section of this file.
 -/
 namespace HclModel
 open Proofs
@@ -225,5 +226,182 @@ example : (eval { funcs := fun _ => none } [("a", .str M "x"), ("b", .str N "y")
 theorem index_marked_key_untainted :
     eval { funcs := fun _ => none } [("o", .object N [("a", .str N "x")]), ("k", .str M "a")]
       (.index (.var "o") (.var "k")) = (.str N "x", []) := rfl
+
+/-! ## The text writer's variable summary (`diagnostic_text.go`)
+
+`hcl.NewDiagnosticTextWriter` prints, for a diagnostic with `Expression` and `EvalContext`, one statement
+`with <traversal> as <value>` / `<traversal> set to null` per traversal in `Expression.Variables()`.  Model:
+`HclModel/Diag/TextWriter.lean` (`TextW.stmtOf`, tied to the real writer by the `TEXTW` correspondence,
+`props/c19/corrtextw.go`).  The scope is the chain of contexts, innermost first; the traversal resolves in the
+first context that has the root name (a context with `Variables == nil` is passed over like one that lacks the
+name), its steps go through `hcl.GetAttr` / `hcl.Index`, any diagnostic skips the statement.  The writer then
+tests, in this order: unknown → skipped; null → `set to null`; `val.IsMarked()` — the top-level mark only —
+→ skipped; else `valueStr`.  A statement is represented by its fragments (`Shown.frags`): the index keys
+printed in the traversal string, and the content `valueStr` prints (`valueFrags`): strings, numbers and bools
+print themselves, collections and tuples print type and length only, objects print the number of attributes —
+and an object with exactly one attribute prints that attribute's **name** (a fragment with the flags of the
+object node: cty cannot mark an attribute name apart from the object).
+
+* `textwriter_clean`: every context exposes no taint (`twEnv`) and the keys are untainted ⟹ every fragment is
+  untainted.  In particular for the scopes an application supplies (`exactEnv`, `textwriter_clean_exact`).
+* `TextWriterFull` — only the outermost, application-supplied scope is constrained — is **false**
+  (`textwriter_full_false`, `textwriter_leak_witness`): a child context that binds an element of a collection
+  marked at the top without the mark (the iteration variable of `ForExpr`, the finding recorded above; dynblock
+  iterators likewise) is printed.  The writer is only as good as the scope it is given.
+* `textwriter_skips_marked`, `textwriter_skips_below_marked`: a value marked at the top, and everything reached
+  by steps from a value marked at the top, is skipped unless it is null; a marked null is shown as
+  `set to null` (`textwriter_marked_null_shown`: the nullness of a marked value is revealed, its content is not —
+  there is none).  `textwriter_collections_show_no_content`.
+* `textwriter_shallow_mark_check_suffices`: testing only the top-level mark is enough, because `valueStr` never
+  descends: for *every* value that exposes no taint and is unmarked at the top, what is shown is untainted —
+  primitives carry all their flags at the top; `{ name = <marked value> }` shows `name`, which is content of
+  the unmarked, untainted object node (`textwriter_one_attr_name`), not of the marked attribute value.  What
+  *is* revealed about marked content below the top: the length of a collection with marked elements, and that
+  an attribute of that name exists.
+-/
+
+section TextWriter
+open TextW
+
+/-- Nothing tainted is shown when no context exposes taint. -/
+theorem textwriter_clean (ctxs : List Env) (t : Trav) (hρ : ∀ ρ ∈ ctxs, twEnv ρ)
+    (hk : ∀ k ∈ t.keys, untainted k = true) : ∀ f ∈ (stmtOf ctxs t).frags, untainted f = true :=
+  Proofs.textwriter_clean ctxs t hρ hk
+
+/-- … for all the statements of a diagnostic. -/
+theorem textwriter_clean_stmts (ctxs : List Env) (ts : List Trav) (hρ : ∀ ρ ∈ ctxs, twEnv ρ)
+    (hk : ∀ t ∈ ts, ∀ k ∈ t.keys, untainted k = true) :
+    ∀ p ∈ stmts ctxs ts, ∀ f ∈ p.2.frags, untainted f = true := by
+  intro p hp
+  simp only [stmts, List.mem_map] at hp
+  obtain ⟨t, ht, rfl⟩ := hp
+  exact Proofs.textwriter_clean ctxs t hρ (hk t ht)
+
+/-- Scopes as applications supply them (and as they come over the wire): taint exactly at and below marks. -/
+theorem textwriter_clean_exact (ctxs : List Env) (t : Trav) (hρ : ∀ ρ ∈ ctxs, exactEnv ρ)
+    (hk : ∀ k ∈ t.keys, untainted k = true) : ∀ f ∈ (stmtOf ctxs t).frags, untainted f = true :=
+  Proofs.textwriter_clean ctxs t (fun ρ h => exactEnv_tw (hρ ρ h)) hk
+
+/-- Full strength: only the application's (outermost) scope is under control; the child contexts are whatever
+    the evaluator created.  **False.** -/
+def TextWriterFull : Prop :=
+  ∀ (children : List Env) (root : Env) (t : Trav), exactEnv root → (∀ k ∈ t.keys, untainted k = true) →
+    ∀ f ∈ (stmtOf (children ++ [root]) t).frags, untainted f = true
+
+/-- `sec` is a tuple marked at the top; the body of `[for v in sec : …]` is evaluated in a child context that
+    binds `v` to the element — tainted, not marked.  A diagnostic raised there shows `with v as "hunter2"`. -/
+theorem textwriter_leak_witness :
+    ∃ f ∈ (stmtOf [[("v", .str T "hunter2")], [("sec", .tuple M [.str T "hunter2"])]] ⟨"v", []⟩).frags,
+      untainted f = false := by decide
+
+theorem textwriter_full_false : ¬ TextWriterFull := by
+  intro h
+  have h1 := h [[("v", .str T "hunter2")]] [("sec", .tuple M [.str T "hunter2"])] ⟨"v", []⟩
+    (by intro p hp; simp only [List.mem_singleton] at hp; subst hp; exact ⟨rfl, rfl⟩)
+    (by intro k hk; cases hk)
+  obtain ⟨f, hf, hu⟩ := textwriter_leak_witness
+  have := h1 f hf
+  rw [hu] at this
+  cases this
+
+/-- A value marked at the top is not shown. -/
+theorem textwriter_skips_marked (ctxs : List Env) (t : Trav) (v : Val) (h : traverseAbs ctxs t = some v)
+    (hm : v.isMarked = true) (hn : v.isNull = false) : stmtOf ctxs t = .skip := by
+  unfold stmtOf
+  rw [h]
+  rcases Proofs.shownOf_marked t v hm with h' | ⟨h1, _⟩
+  · exact h'
+  · rw [hn] at h1; cases h1
+
+/-- … and if it is null, only its nullness is. -/
+theorem textwriter_marked_no_content (ctxs : List Env) (t : Trav) (v : Val) (h : traverseAbs ctxs t = some v)
+    (hm : v.isMarked = true) :
+    stmtOf ctxs t = .skip ∨ (v.isNull = true ∧ stmtOf ctxs t = .null (travFrags t)) := by
+  unfold stmtOf
+  rw [h]
+  exact Proofs.shownOf_marked t v hm
+
+/-- Steps from a value marked at the top (`sec.a`, `sec[0]`, `sec["k"].b`): every result is marked at the top
+    (`WithSameMarks`), hence never shown with content. -/
+theorem textwriter_skips_below_marked (ctxs : List Env) (t : Trav) (r v : Val)
+    (hr : lookupRoot ctxs t.root = some r) (hm : r.isMarked = true) (h : traverseAbs ctxs t = some v) :
+    v.isMarked = true ∧ (stmtOf ctxs t = .skip ∨ (v.isNull = true ∧ stmtOf ctxs t = .null (travFrags t))) := by
+  have hv : v.isMarked = true := by
+    unfold traverseAbs at h
+    rw [hr] at h
+    exact Proofs.traverseRel_marked t.steps r v hm h
+  exact ⟨hv, textwriter_marked_no_content ctxs t v h hv⟩
+
+/-- The null test comes before the mark test: `sec set to null` for a marked null. -/
+theorem textwriter_marked_null_shown :
+    (stmtOf [[("sec", .null M .str)]] ⟨"sec", []⟩).frags = [] ∧
+    (match stmtOf [[("sec", .null M .str)]] ⟨"sec", []⟩ with | .null _ => true | _ => false) = true := by
+  decide
+
+/-- Collections, tuples and objects without or with several attributes show no content at all. -/
+theorem textwriter_collections_show_no_content :
+    (∀ f t xs, valueFrags (.list f t xs) = []) ∧ (∀ f t kvs, valueFrags (.map f t kvs) = []) ∧
+    (∀ f xs, valueFrags (.tuple f xs) = []) ∧
+    (∀ f kvs, kvs.length ≠ 1 → valueFrags (.object f kvs) = []) := by
+  refine ⟨fun _ _ _ => rfl, fun _ _ _ => rfl, fun _ _ => rfl, ?_⟩
+  intro f kvs h
+  match kvs, h with
+  | [], _ => rfl
+  | [_], h => exact absurd rfl h
+  | _ :: _ :: _, _ => rfl
+
+/-- **Testing the top-level mark only is enough** (full strength: every value, every shape): a value that
+    exposes no taint and is not marked at the top shows only untainted content. -/
+theorem textwriter_shallow_mark_check_suffices (v : Val) (hv : tw false v = true) (hm : v.isMarked = false) :
+    ∀ f ∈ valueFrags v, untainted f = true :=
+  Proofs.valueFrags_untainted v hv hm
+
+/-- The one-attribute object: the name is shown whatever the attribute's value is (marked, tainted, anything);
+    the fragment carries the flags of the object node, so it is tainted iff the object node is — and an
+    unmarked object node in a scope that exposes no taint is not. -/
+theorem textwriter_one_attr_name (f : Fl) (k : String) (x : Val) :
+    valueFrags (.object f [(k, x)]) = [.str f k] ∧
+    (tw false (.object f [(k, x)]) = true → f.m = false → untainted (.str f k) = true) := by
+  refine ⟨rfl, fun hv hm => ?_⟩
+  exact Proofs.valueFrags_untainted (.object f [(k, x)]) hv (by simpa [Val.isMarked] using hm) _
+    (List.mem_singleton.mpr rfl)
+
+/-! ### non-vacuity -/
+
+/-- `{ password = <marked> }`, the object itself unmarked: the scope is exact, the name is shown, untainted -/
+example : exactEnv [("o", .object N [("password", .str M "hunter2")])] ∧
+    (stmtOf [[("o", .object N [("password", .str M "hunter2")])]] ⟨"o", []⟩).frags.length = 1 ∧
+    ∀ f ∈ (stmtOf [[("o", .object N [("password", .str M "hunter2")])]] ⟨"o", []⟩).frags, untainted f = true :=
+  ⟨by intro p hp; simp only [List.mem_singleton] at hp; subst hp; exact ⟨rfl, rfl⟩, by decide, by decide⟩
+
+/-- the step into it is skipped (marked at the top) -/
+example : traverseAbs [[("o", .object N [("password", .str M "hunter2")])]] ⟨"o", [.attr "password"]⟩ ≠ none ∧
+    (stmtOf [[("o", .object N [("password", .str M "hunter2")])]] ⟨"o", [.attr "password"]⟩).frags = [] := by
+  decide
+
+/-- a marked tuple: `sec` and `sec[0]` are skipped although the element itself carries no mark -/
+example : (stmtOf [[("sec", .tuple M [.str T "hunter2"])]] ⟨"sec", []⟩).frags = [] ∧
+    traverseAbs [[("sec", .tuple M [.str T "hunter2"])]] ⟨"sec", [.index (.num N 0)]⟩ ≠ none ∧
+    (stmtOf [[("sec", .tuple M [.str T "hunter2"])]] ⟨"sec", [.index (.num N 0)]⟩).frags = [] := by
+  decide
+
+/-- public values are shown: the string, the key of the traversal and the number, the bool -/
+example : (stmtOf [[("s", .str N "abc")]] ⟨"s", []⟩).frags.length = 1 ∧
+    (stmtOf [[("l", .list N .num [.num N 7])]] ⟨"l", [.index (.num N 0)]⟩).frags.length = 2 ∧
+    (stmtOf [[("b", .bool N true)]] ⟨"b", []⟩).frags.length = 1 := by
+  decide
+
+/-- shadowing: the innermost context that has the name wins; a nil / empty context is passed over -/
+example : (match stmtOf [[], [("x", .null N .str)], [("x", .str N "outer")]] ⟨"x", []⟩ with
+    | .null _ => true | _ => false) = true := by
+  decide
+
+/-- errors skip: a missing name, a missing attribute, an index out of range -/
+example : (stmtOf [[("s", .str N "abc")]] ⟨"zz", []⟩).frags = [] ∧
+    (stmtOf [[("s", .str N "abc")]] ⟨"s", [.attr "a"]⟩).frags = [] ∧
+    (stmtOf [[("l", .list N .num [.num N 7])]] ⟨"l", [.index (.num N 1)]⟩).frags = [] := by
+  decide
+
+end TextWriter
 
 end HclModel
